@@ -354,7 +354,7 @@ def strip_attrs_and_docs(text, log, item_name):
         if s.startswith("///") or s.startswith("//!"):
             dropped += 1
             continue
-        if re.fullmatch(r"#\[(inline(\(\w+\))?|expect\(.*\)|allow\(.*\)|must_use|cold|track_caller)\]", s):
+        if re.fullmatch(r"#\[(inline(\(\w+\))?|expect\(.*\)|allow\(.*\)|must_use|cold|track_caller|default)\]", s):
             dropped += 1
             continue
         out.append(ln)
@@ -461,6 +461,21 @@ def extract_item(repo, item, log):
             log.append(dict(item=name, rule="R12", before=m.group(0).strip(), after="", times=1))
             text = m.group(1) + text[m.end():]
     text = apply_edits(text, item.get("edits"), log, name)
+    if item.get("truncate_at"):
+        # R14: the function is cut at a statement boundary; the dropped tail must not touch the
+        # state the contract speaks about (checked syntactically), the stated tail expression is appended
+        t = item["truncate_at"]
+        anchor = t["anchor"]
+        if text.count(anchor) != 1:
+            raise Undecided("truncate anchor %r found %d times in %s" % (anchor[:50], text.count(anchor), name))
+        pos = text.find(anchor)
+        dropped = text[pos:]
+        for bad in t.get("dropped_must_not_contain", []):
+            if bad in dropped:
+                raise Undecided("%s: dropped tail contains %r: truncation R14 not applicable" % (name, bad))
+        log.append(dict(item=name, rule="R14", before="%d bytes from %r to the end of the function" % (len(dropped), anchor[:60]),
+                        after=t["tail"], times=1))
+        text = text[:pos] + t["tail"]
     kind = item["path"][-1].split(" ")[0]
     if kind == "fn":
         text = splice_fn(text, item, log)
